@@ -95,8 +95,16 @@ def open_handle(path: str):
 
 # ====================================================================================== independent reader
 def avro_records(b: bytes) -> List[Dict[str, Any]]:
+    """fastavro on a real file object, as the library reads it through open_file(): on some non-Avro bytes the header
+    parser asks for a huge read, which a file object answers with MemoryError (not a fallback class) while a BytesIO
+    would answer with a short read (-> ValueError, a fallback class)."""
+    import tempfile
+
     import fastavro
-    return list(fastavro.reader(io.BytesIO(b)))
+    with tempfile.TemporaryFile() as f:
+        f.write(b)
+        f.seek(0)
+        return list(fastavro.reader(f))
 
 
 def parquet_rows(b: bytes) -> List[int]:
@@ -579,6 +587,34 @@ def json_boundaries(b: bytes) -> List[int]:
     return sorted(set(o for o in out if 0 < o < len(b)))
 
 
+def damage_by_name(inv: Inventory, path: str, name: str) -> Optional[Dict[str, Any]]:
+    """Rebuild one damage from its name alone (replay, shrinking)."""
+    orig = inv.files[path]
+    n = len(orig)
+    head, _, arg = name.partition("@")
+    if name == "delete":
+        return {"name": name, "class": "absent", "writes": {path: None}}
+    if head == "truncate" and arg.isdigit() and int(arg) < n:
+        return {"name": name, "class": "truncate", "writes": {path: orig[:int(arg)]}}
+    if head == "flip" and arg.isdigit() and int(arg) < n:
+        o = int(arg)
+        return {"name": name, "class": "flip", "writes": {path: orig[:o] + bytes([orig[o] ^ 0xFF]) + orig[o + 1:]}}
+    if name.startswith("random:") or name.startswith("random-noncaught:"):
+        rs = random.Random(int(name.rsplit(":", 1)[1]))
+        return {"name": name, "class": "replace", "writes": {path: bytes(rs.randrange(256) for _ in range(n))}}
+    if name == "braces":
+        return {"name": name, "class": "replace", "writes": {path: b"{}"}}
+    if name == "text":
+        return {"name": name, "class": "replace", "writes": {path: b"not a table file\n"}}
+    if name == "swap-sibling" and inv.siblings(path):
+        sib = inv.siblings(path)[0]
+        return {"name": name, "class": "swap", "writes": {path: inv.files[sib], sib: orig}, "sibling": sib}
+    if name.startswith("transient"):
+        kind, op, occ = name.split(":")
+        return {"name": name, "class": "transient", "writes": {}, "fault": (path, op, int(occ), "stream" if kind == "transient-stream" else "call")}
+    return None
+
+
 def damages_for(inv: Inventory, path: str, tier: str, rng: random.Random) -> List[Dict[str, Any]]:
     """Each damage: {"name", "writes": {path: bytes|None}, "fault": (path, op, occ, mode)|None, "class"}."""
     role = inv.roles[path]
@@ -596,8 +632,26 @@ def damages_for(inv: Inventory, path: str, tier: str, rng: random.Random) -> Lis
         offs |= set(rng.sample(range(n), min(3, n)))
     for o in sorted(x for x in offs if 0 <= x < n):
         out.append({"name": f"truncate@{o}", "class": "truncate", "writes": {path: orig[:o]}, "structural": o in bounds})
-    rb = random.Random(rng.random())
-    out.append({"name": "random", "class": "replace", "writes": {path: bytes(rb.randrange(256) for _ in range(n))}})
+    out.append(damage_by_name(inv, path, f"random:{rng.randrange(10 ** 6)}"))
+    if role in ("list", "manifest"):
+        # bytes on which fastavro raises something OUTSIDE the fallback tuple (MemoryError from a huge header read,
+        # KeyError 'avro.schema'): the reader must let it propagate, not fall back, and certainly not return
+        found = set()
+        for seed in range(400):
+            rs = random.Random(seed)
+            cand = bytes(rs.randrange(256) for _ in range(n))
+            try:
+                avro_records(cand)
+                cls = "ok"
+            except ValueError:
+                continue
+            except Exception as e:  # noqa: BLE001
+                cls = type(e).__name__
+            if cls not in found:
+                found.add(cls)
+                out.append({"name": f"random-noncaught:{cls}:{seed}", "class": "replace", "writes": {path: cand}})
+            if len(found) >= 2:
+                break
     out.append({"name": "braces", "class": "replace", "writes": {path: b"{}"}})
     out.append({"name": "text", "class": "replace", "writes": {path: b"not a table file\n"}})
     flips = set([0, 3, n // 3, n // 2, n - 5, n - 1] + [b for b in bounds if b < n])
@@ -842,7 +896,7 @@ def make_table(path: str, shape: List[List[int]], variant: Optional[str]) -> "In
     return Inventory(path)
 
 
-REDUCED = ("delete", "random", "braces", "swap-sibling", "truncate@1")
+REDUCED = ("delete", "braces", "swap-sibling", "truncate@1")   # + transient, structural truncations, random-noncaught
 
 
 def run_table(ctx, path: str, shape: List[List[int]], tag: str, file_limit: Optional[int] = None,
@@ -867,7 +921,8 @@ def run_table(ctx, path: str, shape: List[List[int]], tag: str, file_limit: Opti
         targets = targets + [(HINT_PATH, "pointer")]
     for p, role in targets:
         for d in damages_for(inv, p, ctx.tier, rng):
-            if reduced and not (d["name"] in REDUCED or d["class"] == "transient" or d.get("structural")):
+            if reduced and not (d["name"] in REDUCED or d["class"] == "transient" or d.get("structural")
+                                or d["name"].startswith("random")):
                 continue
             targets_dmgs.append((p, role, d))
     for p, role, dmg in targets_dmgs:
@@ -1060,7 +1115,7 @@ def oracle_options(ctx, path: str) -> None:
     }
     for p, role in inv.reachable():
         for dmg in damages_for(inv, p, "quick", ctx.rng):
-            if not (dmg["name"] in ("delete", "random", "swap-sibling") or dmg["name"].startswith("flip@")):
+            if not (dmg["name"] in ("delete", "swap-sibling") or dmg["name"].startswith("flip@") or dmg["name"].startswith("random:")):
                 continue
             if role != "data" and (dmg["class"] in ("flip", "swap") or (role == "meta" and dmg["class"] == "absent")):
                 continue
@@ -1136,10 +1191,9 @@ def execute_case(case: Dict[str, Any], path: str) -> Optional[Tuple[Dict[str, An
     if not files:
         return None
     p = files[min(case.get("index", 0), len(files) - 1)]
-    dmgs = [d for d in damages_for(inv, p, "thorough", random.Random(0)) if d["name"] == case["damage"]]
-    if not dmgs:
+    dmg = damage_by_name(inv, p, case["damage"])
+    if dmg is None:
         return None
-    dmg = dmgs[0]
     apply_damage(inv, dmg)
     try:
         if case.get("fresh"):
@@ -1174,7 +1228,8 @@ def shrink(ctx) -> None:
     size = lambda sh: (sum(len(f) for f in sh), sum(sum(f) for f in sh))
     for v in ctx.violations:
         case = v["replay"]
-        if v["key"] in seen or v["key"].startswith(KNOWN_KEY) or not isinstance(case, dict) or "damage" not in case:
+        if (v["key"] in seen or v["key"].startswith(KNOWN_KEY) or not isinstance(case, dict)
+                or "damage" not in case or "shape" not in case or "api" not in case):
             continue
         seen.add(v["key"])
         for shape in ([[1]], [[1], [1]], [[1, 1]], [[2], [1]]):
@@ -1187,6 +1242,7 @@ def shrink(ctx) -> None:
                 r = None
             if r is not None and case_fails(c2, r[0], r[1]):
                 v["replay"] = dict(c2, shrunk_from=case["shape"], got=r[0])
+                v["what"] += f" -- shrunk to table shape {shape}: got {r[0].get('rows', r[0].get('count', r[0].get('exc')))}"
                 break
 
 
